@@ -16,21 +16,60 @@ fn perturb_units_range_contract() {
     kani::cover!(p < 0, "COV negative perturbation");
 }
 
-/// one axis of the snap: for every period L (normal, > 0), every canonical coordinate x in
-/// [0, L) and every perturbation in range, the stored coordinate is in [0, L)
+// The per-axis snap of a canonical coordinate is proved in three steps (one symbolic float
+// division / multiplication each at most; the whole loop body in one query ran into the 25 min cap):
+//   front: whatever the quotient x / L is (not NaN), the grid index u is in [0, 2^52 - 1]
+//   clamp: for every such u and every perturbation in range, u + off is in [0, 2^52 - 1]
+//   back : for every grid index a in [0, 2^52 - 1] and every normal L > 0, (a / 2^52) * L is in [0, L)
+const TWO52: i64 = 4_503_599_627_370_496;
+
 #[kani::proof]
-#[kani::unwind(3)]
-fn periodic_snap_contract() {
-    let l: f64 = kani::any();
-    let x: f64 = kani::any();
+fn periodic_snap_front_contract() {
+    let q: f64 = kani::any();
+    kani::assume(!q.is_nan());
+    // domain_i = 1.0: orig / 1.0 == orig exactly, so `orig` ranges over every possible quotient
+    let u = DelaunayTriangulationBuilder::<f64, (), 1>::verif_slice_periodic_snap_front(q, 1.0);
+    kani::cover!(u == TWO52 - 1, "COV last grid cell");
+    kani::cover!(u == 0, "COV first grid cell");
+    assert!(TWO52 == TWO_POW_52_I64, "OBL constant: the contract's 2^52 is the code's");
+    assert!(0 <= u && u <= TWO52 - 1, "OBL grid-index-range: the grid index of a canonical coordinate is in [0, 2^52 - 1] whatever the quotient (no `expect` fires)");
+}
+
+#[kani::proof]
+fn periodic_snap_clamp_contract() {
+    let u: i64 = kani::any();
     let p: i64 = kani::any();
-    kani::assume(l.is_normal() && l > 0.0);
-    kani::assume(x >= 0.0 && x < l);
+    kani::assume(0 <= u && u <= TWO52 - 1);
     kani::assume(-MAX_OFF <= p && p <= MAX_OFF);
     let f = move |_c: usize, _a: usize| -> i64 { p };
-    let out = DelaunayTriangulationBuilder::<f64, (), 1>::verif_slice_periodic_snap([l], &[x], 0, &f);
-    kani::cover!(p == MAX_OFF && x > l * 0.999_999_999_9, "COV upper clamp active");
-    kani::cover!(p == -MAX_OFF && x == 0.0, "COV lower clamp active");
-    assert!(out[0] >= 0.0, "OBL snapped-nonnegative: the stored coordinate is >= 0");
-    assert!(out[0] < l, "OBL snapped-below-period: the stored coordinate is strictly below L (half-open box)");
+    let a = DelaunayTriangulationBuilder::<f64, (), 1>::verif_slice_periodic_snap_clamp(u, kani::any(), 0, &f);
+    kani::cover!(u == TWO52 - 1 && p == MAX_OFF, "COV upper clamp active");
+    kani::cover!(u == 0 && p == -MAX_OFF, "COV lower clamp active");
+    kani::cover!(u == TWO52 / 2 && a == (u + p) as f64 && p != 0, "COV unclamped perturbation");
+    assert!(a >= 0.0 && a <= (TWO52 - 1) as f64, "OBL perturbed-index-range: the perturbed grid index stays in [0, 2^52 - 1] (the stored coordinate can never reach L)");
+    assert!((a - u as f64).abs() <= MAX_OFF as f64, "OBL perturbation-bounded: the perturbation moves the index by at most MAX_OFFSET_UNITS");
+}
+
+/// worst case of the last step: the LAST grid cell (a = 2^52 - 1), every normal period L > 0.
+/// Smaller indices follow because IEEE multiplication by a positive L is monotone in the other
+/// operand (round-to-nearest is monotone) - that step is by reading, see `assumed`.
+#[kani::proof]
+fn periodic_snap_back_contract() {
+    let l: f64 = kani::any();
+    kani::assume(l.is_normal() && l > 0.0);
+    let a = (TWO52 - 1) as f64;
+    let out = DelaunayTriangulationBuilder::<f64, (), 1>::verif_slice_periodic_snap_back(a, l, 0, [0.0]);
+    kani::cover!(l == 1.0, "COV unit period");
+    kani::cover!(l > 1.0e300, "COV huge period");
+    assert!(out[0] >= 0.0, "OBL stored-nonnegative: the stored coordinate is >= 0");
+    assert!(out[0] < l, "OBL stored-below-period: the stored coordinate of the last grid cell is strictly below L for every period (half-open box)");
+}
+/// every grid index, unit period (the common case): exact arithmetic, no rounding involved
+#[kani::proof]
+fn periodic_snap_back_unit_contract() {
+    let a: u64 = kani::any();
+    kani::assume(a <= (TWO52 - 1) as u64);
+    let out = DelaunayTriangulationBuilder::<f64, (), 1>::verif_slice_periodic_snap_back(a as f64, 1.0, 0, [0.0]);
+    kani::cover!(a == (TWO52 - 1) as u64, "COV last grid cell");
+    assert!(out[0] >= 0.0 && out[0] < 1.0, "OBL stored-in-unit-box: for L = 1 every grid index is stored inside [0, 1)");
 }
